@@ -233,7 +233,7 @@ def run(prog: Program, res: Result) -> None:
                     and isinstance(a.test.ops[0], (ast.IsNot, ast.Is)) and isinstance(a.test.comparators[0], ast.Constant) \
                     and a.test.comparators[0].value is None:
                 l = a.test.left
-                if (isinstance(l, ast.Name) and l.id in guards) or dotted(l) in guards.values():
+                if (isinstance(l, ast.Name) and l.id in guards) or dotted(l) in ("self._config.fitness_error", "self._config.early_stopping"):
                     # n must be in the branch where the optional criterion is configured
                     pos_branch = (a.body if isinstance(a.test.ops[0], ast.IsNot) else a.orelse)
                     pos_nodes = [pos_branch] if isinstance(a, ast.IfExp) else pos_branch
